@@ -6,7 +6,7 @@ PROPERTY = "C02"
 CLAUSES = ["C02.once", "C02.value", "C02.processed", "C02.retrigger", "C02.term", "C02.crash"]
 RULE = ("every process program of <= D executed instructions over {return, raise, value-carrying timeout(0|1), wait on a "
         "shared event catching/not catching, succeed/fail it, register a plain callback on it, join a peer catching/not "
-        "catching, spawn; a third alphabet adds falsy return values (0, '', False) and a BaseException that is not an Exception} with 2 initial and <= 4 processes; non-trivial = some event had >= 2 registered waiters besides "
+        "catching, spawn; a third alphabet adds falsy return values (0, '', False), a BaseException that is not an Exception and the exported StopProcess; two configurations attach no probe to process events} with 2 initial and <= 4 processes; non-trivial = some event had >= 2 registered waiters besides "
         "the probe, or failed; distinct = distinct observation logs")
 ASSUMPTIONS = [
     "reference 'handled' rule: a failed event is handled iff at least one process is waiting on it when it is processed "
@@ -16,7 +16,7 @@ ASSUMPTIONS = [
 OPS = ["ret", "raise", ("T", 0), ("T", 1), ("W", 0, True), ("W", 0, False), ("S", 0), ("F", 0), ("J", True), ("J", False),
        "Sp", ("CB", 0)]
 # third alphabet: falsy return values and exceptions that are not Exception subclasses
-OPS3 = ["ret", "ret0", "raise", "raiseB", ("T", 0), ("T", 1), ("J", True), ("J", False), ("W", 0, True), ("S", 0), "Sp"]
+OPS3 = ["ret", "ret0", "raise", "raiseB", "raiseSP", ("T", 0), ("T", 1), ("J", True), ("J", False), ("W", 0, True), ("S", 0), "Sp"]
 OPS2 = ["ret", "raise", ("T", 0), ("W", 0, True), ("W", 1, False), ("S", 0), ("F", 0), ("S", 1), ("F", 1), ("J", True), ("CB", 1)]
 MAP = {"once": "C02.once", "value": "C02.value", "processed": "C02.processed", "retrigger": "C02.retrigger",
        "term": "C02.term", "crash": "C02.crash"}
@@ -25,12 +25,14 @@ MAP = {"once": "C02.once", "value": "C02.value", "processed": "C02.processed", "
 def plan(tier, seed):
     quick = tier == "quick"
     d = 6 if quick else 7
-    cfgs = [dict(depth=d, ops=1, nproc=2), dict(depth=d, ops=2, nproc=2), dict(depth=d - 1, ops=1, nproc=3), dict(depth=d - 1, ops=3, nproc=2)]
+    cfgs = [dict(depth=d, ops=1, nproc=2), dict(depth=d, ops=2, nproc=2), dict(depth=d - 1, ops=1, nproc=3), dict(depth=d - 1, ops=3, nproc=2),
+            # process events without any callback of ours: a terminated process must be processed even when nobody waits yet
+            dict(depth=d - 1, ops=1, nproc=2, noprobe=1), dict(depth=d - 1, ops=3, nproc=2, noprobe=1)]
     return {"cfgs": cfgs, "budget": None, "bound": "D<=%d with 2 initial processes (alphabets: one / two shared events; falsy returns + non-Exception BaseException at D-1), D<=%d with 3; <=4 processes" % (d, d - 1)}
 
 
 def execute(ch, cfg):
-    k = KC.K(ch, {1: OPS, 2: OPS2, 3: OPS3}[cfg["ops"]], cfg["depth"], nproc=cfg["nproc"], reaction=False).run()
+    k = KC.K(ch, {1: OPS, 2: OPS2, 3: OPS3}[cfg["ops"]], cfg["depth"], nproc=cfg["nproc"], reaction=False, probe_procs=not cfg.get("noprobe")).run()
     res = Result()
     res.digest = k.digest()
     viol, nt = KC.check_delivery(k)
